@@ -116,6 +116,18 @@ def fit_quiet(selector, X, y=None, warm_start=False):
     return [str(x.message) for x in w], exc
 
 
+def query_all(s, X):
+    """A fitted selector is QUERIED through every read-only accessor it has (results ignored): what is fitted or
+    continued afterwards must not depend on it."""
+    for name, args in (("get_support", ()), ("get_support", (True,)), ("get_distance", ()), ("get_select_distance", ()), ("transform", (X,))):
+        fn = getattr(s, name, None)
+        if callable(fn):
+            try:
+                fn(*args)
+            except Exception:
+                pass
+
+
 def sibling_fit(kind, direction, X, y, p, n=2):
     """An UNRELATED selector of the same class and configuration, cold-fitted on other data of the
     same shape -- a step the harness inserts between two legs of another instance's warm-start chain
